@@ -1,6 +1,7 @@
 use crate::engine::runner::{CaseInfo, Ctx, Failure};
 use serde_json::Value;
 
+pub mod c01;
 pub mod c02;
 pub mod c03;
 pub mod c04;
@@ -10,9 +11,11 @@ pub mod c07;
 pub mod c08;
 pub mod c11;
 pub mod c12;
+pub mod c13;
 pub mod c16;
 pub mod c17;
 pub mod c19;
+pub mod c20;
 
 pub struct Prop {
     pub id: &'static str,
@@ -24,6 +27,7 @@ pub struct Prop {
 
 pub fn all() -> Vec<Prop> {
     vec![
+        Prop { id: "C01", run: c01::run, replay: c01::replay, rule: c01::RULE, assumptions: &["the walk covers what engine/walker.rs reads", "never-hangs is judged by a 40 s wall-clock budget per walk confirmed at 160 s; inputs are < 1 MB and normal walks take milliseconds"] },
         Prop { id: "C02", run: c02::run, replay: c02::replay, rule: c02::RULE, assumptions: &["the harness writer (engine/writer.rs) produces well-formed incremental updates: generation numbers never decrease, freed numbers are reused with the bumped generation, object 0 heads the free list", "hybrid-reference files and compressed objects with generation > 0 are not generated"] },
         Prop { id: "C03", run: c03::run, replay: c03::replay, rule: c03::RULE, assumptions: &["the printer in harness/src/engine/printer.rs is my reading of ISO 32000-1 7.2-7.3", "std's decimal->f32 conversion is correctly rounded (used to define the denoted value of a real)"] },
         Prop { id: "C04", run: c04::run, replay: c04::replay, rule: c04::RULE, assumptions: &["placement strings (\"N G obj\\n\" .. \"endobj\\n\") mirror Storage::save"] },
